@@ -662,6 +662,64 @@ impl TabletsInfo {
     }
 }
 
+/// Verification hook H-TABLETS (see `crate::verif::tablets`): read-only views of the private
+/// tablet containers for the external model-checking harness. Additive; compiled only with
+/// `--cfg scylla_verif`.
+#[cfg(scylla_verif)]
+pub(crate) mod verif_access {
+    use super::*;
+
+    /// One tablet as stored: inclusive range, resolved replicas (all / grouped per DC) and,
+    /// if some replica uuid could not be resolved when learnt, the original raw list.
+    pub(crate) struct TabletView<'a> {
+        pub(crate) first_token: i64,
+        pub(crate) last_token: i64,
+        pub(crate) all: &'a [(Arc<Node>, Shard)],
+        pub(crate) per_dc: &'a HashMap<String, Vec<(Arc<Node>, Shard)>>,
+        pub(crate) failed: Option<&'a [(Uuid, Shard)]>,
+    }
+
+    impl TableTablets {
+        pub(crate) fn verif_tablets(&self) -> Vec<TabletView<'_>> {
+            self.tablet_list
+                .iter()
+                .map(|t| TabletView {
+                    first_token: t.first_token.value(),
+                    last_token: t.last_token.value(),
+                    all: t.replicas.all.as_slice(),
+                    per_dc: &t.replicas.per_dc,
+                    failed: t.failed.as_ref().map(|f| f.replicas.as_slice()),
+                })
+                .collect()
+        }
+
+        pub(crate) fn verif_has_unknown_replicas(&self) -> bool {
+            self.has_unknown_replicas
+        }
+    }
+
+    impl TabletsInfo {
+        pub(crate) fn verif_has_unknown_replicas(&self) -> bool {
+            self.has_unknown_replicas
+        }
+
+        pub(crate) fn verif_tables(&self) -> Vec<&TableSpec<'static>> {
+            self.tablets.keys().collect()
+        }
+    }
+
+    impl RawTablet {
+        /// (first token, last token, raw replicas) as produced by the payload parser.
+        pub(crate) fn verif_parts(&self) -> (i64, i64, &[(Uuid, Shard)]) {
+            (
+                self.first_token.value(),
+                self.last_token.value(),
+                self.replicas.replicas.as_slice(),
+            )
+        }
+    }
+}
+
 #[cfg(test)]
 mod tests {
     use std::collections::{HashMap, HashSet};
